@@ -17,6 +17,20 @@ Val(k) == CASE k = Pawn -> 100 [] k \in {Knight, Bishop} -> 300 [] k = Rook -> 5
 Max2(a, b) == IF a >= b THEN a ELSE b
 MinOver(S) == CHOOSE x \in S : \A y \in S : x <= y
 
+\* Symmetry reduction of the tie choice.  A least attacker is QUIET when lifting it off the board uncovers no further
+\* attacker of either colour.  That stays true for the rest of the exchange: the first man behind it on the line from the
+\* target is either missing or no slider of that line, such a man is no attacker at all (a man stands on at most one line
+\* through the target; knights stand on none) and therefore never leaves.  Two quiet candidates of one value lead to
+\* boards that differ only in which of them is left, still quiet and of the same value: the exchange values are the
+\* same.  So one quiet candidate stands for all of them; every candidate with something behind it is still tried.
+\* (Without this the order of n equal minor pieces a side costs n! * n! paths: exchanges of 17+ captures never finish.)
+BothAttackers(bd, t) == AttackersOf(bd, t, 0) \cup AttackersOf(bd, t, 1)
+Quiet(bd, t, a) == BothAttackers([bd EXCEPT ![a + 1] = 0], t) = BothAttackers(bd, t) \ {a}
+Picks(bd, t, cands) ==
+    IF Cardinality(cands) <= 1 THEN cands
+    ELSE LET q == {a \in cands : Quiet(bd, t, a)}
+         IN  IF q = {} THEN cands ELSE (cands \ q) \cup {CHOOSE a \in q : TRUE}
+
 \* values side c can obtain by (optionally) capturing the piece standing on t
 RECURSIVE ExchVals(_, _, _)
 ExchVals(bd, t, c) ==
@@ -24,13 +38,14 @@ ExchVals(bd, t, c) ==
     IN  IF att = {} THEN {0}
         ELSE LET minv  == MinOver({Val(KindOf(At(bd, a))) : a \in att})
                  cands == {a \in att : Val(KindOf(At(bd, a))) = minv}
+                 picks == Picks(bd, t, cands)
                  vict  == Val(KindOf(At(bd, t)))
              IN  UNION {
                    IF KindOf(At(bd, a)) = King /\ AttackersOf(bd, t, Other(c)) # {}
                    THEN {0}
                    ELSE LET nb == [bd EXCEPT ![a + 1] = 0, ![t + 1] = bd[a + 1]]
                         IN  {Max2(0, vict - v) : v \in ExchVals(nb, t, Other(c))}
-                   : a \in cands}
+                   : a \in picks}
 
 \* m: a capture (kind 1), possibly promoting.  Set of possible exchange values for the mover.
 SeeValues(pos, m) ==
